@@ -625,4 +625,30 @@ def c14_k(ctx: Ctx):
     return cli.sync_strategy_origin(ctx, "C14-k")
 
 
-RULES = [c14_a, c14_b, c14_c, c14_d, c14_e, c14_f, c14_g, c14_h, c14_i, c14_j, c14_k]
+@rule("C14-l")
+def c14_l(ctx: Ctx):
+    """Job.sync / Project.sync are pass-through wrappers: the options they hand to sync_jobs / sync_projects under the same name (strategy, doc_sync, exclude, ...) are the
+    caller's values - a wrapper that re-binds one of them first (e.g. turns every string doc_sync, including DocSync.COPY == 'copy', into a key pattern) changes
+    what the option means only on this path."""
+    R = "C14-l"
+    out = []
+    for q, api in (("signac.job:Job.sync", "sync_jobs"), ("signac.project:Project.sync", "sync_projects")):
+        f = ctx.prog.funcs.get(q)
+        k = q + "|pass-through"
+        if f is None:
+            out.append(ctx.inc(R, None, None, f"{q} not found", construct=k))
+            continue
+        calls = [c for c in body_nodes(f) if isinstance(c, ast.Call) and (dotted(c.func) or "").split(".")[-1] == api]
+        if not calls:
+            out.append(ctx.inc(R, f, f.node, f"no {api}(...) call", construct=k))
+            continue
+        same = {kw.arg for c in calls for kw in c.keywords if kw.arg and isinstance(kw.value, ast.Name) and kw.value.id == kw.arg and kw.arg in f.params}
+        rebound = [n for n in body_nodes(f) if isinstance(n, ast.Name) and isinstance(n.ctx, ast.Store) and n.id in same]
+        if rebound:
+            out.append(ctx.viol(R, f, rebound[0], f"the wrapper re-binds its parameter `{rebound[0].id}` before handing it to {api}(): the option means something else through "
+                                f"{f.name} than through {api} itself", construct=k))
+        else:
+            out.append(ctx.ok(R, f, calls[0], f"{len(same)} option(s) are handed to {api}() as received", construct=k))
+    return out
+
+RULES = [c14_a, c14_b, c14_c, c14_d, c14_e, c14_f, c14_g, c14_h, c14_i, c14_j, c14_k, c14_l]
